@@ -4,6 +4,7 @@ actions); each history is replayed on a real object X, the LAST call is repeated
 Parent.cache_clear()), and TLC judges answers (value and type) and operand snapshots."""
 import enum
 import json
+import os
 import random
 import re
 import uuid
@@ -611,6 +612,135 @@ def memo_leg(chk):
     return evs
 
 
+# ---------------------------------------------------------------------------------------------------------------------
+# The Parent constructor cache (spec/PCache.tla, PCacheMC.tla, trace/PCacheTrace.tla)
+def _parent_pool():
+    """twelve LOOK-ALIKE keyword-argument sets for Parent(): they differ in exactly one component"""
+    from inscripta.biocantor.location.location_impl import CompoundInterval, SingleInterval
+    from inscripta.biocantor.location.strand import Strand
+    from inscripta.biocantor.parent import Parent
+    from inscripta.biocantor.sequence import Sequence
+    from inscripta.biocantor.sequence.alphabet import Alphabet
+
+    asm = Parent(id="asm", sequence_type="assembly")
+    asm2 = Parent(id="asm2", sequence_type="assembly")
+    return {
+        1: dict(id="chr", sequence_type="chromosome"),
+        2: dict(id="chr", sequence_type="chromosome", parent=asm),
+        3: dict(id="chr"),
+        4: dict(id="chr", sequence_type="contig"),
+        5: dict(id="chr", sequence_type="chromosome", strand=Strand.PLUS),
+        6: dict(id="chr", sequence_type="chromosome", location=SingleInterval(0, 5, Strand.PLUS)),
+        7: dict(id="chr", sequence_type="chromosome", location=SingleInterval(0, 5, Strand.MINUS)),
+        8: dict(id="chr", sequence_type="chromosome", location=CompoundInterval([0, 3], [2, 5], Strand.PLUS)),
+        9: dict(id="chr", sequence=Sequence("ACGTACGT", Alphabet.NT_STRICT, id="chr", type="chromosome")),
+        10: dict(id="chr", sequence=Sequence("ACGTACGA", Alphabet.NT_STRICT, id="chr", type="chromosome")),
+        11: dict(id="chr", sequence=Sequence("ACGTACGT", Alphabet.NT_EXTENDED, id="chr", type="chromosome")),
+        12: dict(id="chr", sequence_type="chromosome", parent=asm2),
+    }
+
+
+def _parent_content(q, depth=0):
+    if q is None or depth > 6:
+        return None
+    loc = q.location
+    seq = q.sequence
+    return [q.id, str(q.sequence_type), q.strand.name if q.strand is not None else None,
+            [E.loc(loc), E.pid(loc)] if loc is not None else None,
+            [str(seq), seq.alphabet.name, seq.id, str(seq.sequence_type)] if seq is not None else None,
+            _parent_content(q.parent, depth + 1)]
+
+
+_FLOOD = [0]
+
+
+def _pcache_replay(args):
+    behaviours, seed = args
+    setup_repo_import()
+    from inscripta.biocantor.parent import Parent
+
+    pool = _parent_pool()
+    raw = Parent.__wrapped__
+    want = {k: _parent_content(raw(**kw)) for k, kw in pool.items()}
+    ev = []
+    tid = seed * 100000
+
+    def obs():
+        ci = Parent.cache_info()
+        return [ci.hits, ci.misses, ci.currsize]
+
+    for beh in behaviours:
+        tid += 1
+        Parent.cache_clear()
+        ev.append(["new", tid])
+        for (act, x, _pred) in beh:
+            if act == "construct":
+                got = Parent(**pool[x])
+                ev.append(["construct", tid, x, obs(), _parent_content(got) == want[x]])
+            elif act == "flood":
+                for _ in range(x):
+                    _FLOOD[0] += 1
+                    Parent(id="flood%d_%d" % (seed, _FLOOD[0]))
+                ev.append(["flood", tid, x, obs(), True])
+            else:
+                Parent.cache_clear()
+                ev.append(["clear", tid, 0, obs(), True])
+    Parent.cache_clear()
+    return ev
+
+
+def _pcache_corrupt(ev, rnd):
+    if ev[0] == "new":
+        return None
+    ev[4] = not ev[4]
+    return ev
+
+
+def pcache_leg(chk):
+    quick = chk.quick
+    setup_repo_import()
+    from inscripta.biocantor.parent import Parent
+    from bcverif.runner import parse_prints
+
+    chk.mc("PCacheMC", "PCacheMC.cfg", note="the process-wide Parent constructor cache as a bounded LRU machine (capacity 3, four "
+           "look-alike keys, floods of 1..3 unrelated parents, clear): the object handed back is the one for the arguments "
+           "asked; bounds; recency")
+    chk.mc("PCacheMC", "PCacheMC_neg.cfg", expect_violation=True,
+           note="a key equality under which two look-alikes collide (what seeded changes C04-1 / C10-4 did)")
+    cap = Parent.cache_info().maxsize
+    if not cap or cap < 20:
+        chk.extra["parent_cache_machine"] = {"skipped": "Parent cache capacity is %r: no bounded LRU to step through" % (cap,)}
+        return
+    cfg = open(os.path.join(chk.dir, "PCacheSim.cfg")).read()
+    cfg = re.sub(r"N = \d+", "N = %d" % cap, cfg)
+    cfg = re.sub(r"Floods = \{[^}]*\}", "Floods = {1, 2, %d, %d, %d, %d, %d, %d, %d}" % (
+        cap - 13, cap - 12, cap - 11, cap - 2, cap - 1, cap, cap + 1), cfg)
+    open(os.path.join(chk.dir, "PCacheSimN.cfg"), "w").write(cfg)
+    r = chk.mc("PCacheMC", "PCacheSimN.cfg", workers=1, simulate="num=%d" % (120 if quick else 2500),
+               extra=["-depth", "15", "-seed", str(chk.seed + 43)],
+               note="simulated behaviours (14 steps: construct one of 12 look-alikes / flood to the eviction boundary / clear) at "
+                    "the real capacity %d, each step with the cache_info() the machine predicts; emitted for replay" % cap)
+    behs = [b[0] for b in parse_prints(r["out"], "PCACHE")]
+    if len(behs) < 50:
+        raise MachineryError("TLC emitted only %d Parent-cache behaviours" % len(behs))
+    parts = pmap(_pcache_replay, [(behs[i::16], i + 1) for i in range(16)])
+    evs = [e for p in parts for e in p]
+    open(os.path.join(chk.dir, "PCacheTraceN.cfg"), "w").write(
+        "SPECIFICATION TraceSpec\nCONSTANTS\n  N = %d\n  NK = 12\n  Variant = \"code\"\nINVARIANT Report\n"
+        "POSTCONDITION TraceAccepted\nCHECK_DEADLOCK FALSE\n" % cap)
+    chk.validate("PCacheTrace", evs, shard=1200, label="pcache", cfg="PCacheTraceN.cfg", corrupt=_pcache_corrupt,
+                 align=lambda e: e[0] == "new")
+    divs = [c for (_off, c) in chk.last_info if c and c[0] == "DIV"]
+    objs = sum(1 for e in evs if e[0] == "new")
+    chk.extra["parent_cache_machine"] = {
+        "capacity_read_from_the_class": cap, "behaviours_from_tlc": len(behs),
+        "steps_validated_one_tlc_state_each": len(evs) - objs,
+        "behaviours_whose_counters_follow_the_machine": objs - len(divs),
+        "divergences": [{"line": d[1][0], "action": d[1][1], "machine": d[1][2], "observed": d[1][3]} for d in divs[:6]],
+        "meaning": "a divergence is model drift (capacity or key equality changed in a way that keeps every answer), not a "
+                   "violation; the verdict is content of the object handed back = content of an uncached construction"}
+
+
 def _corrupt(ev, rnd):
     """binding control: one observed field of a replayed history changed"""
     k = rnd.choice([3, 4, 8, 9])
@@ -666,6 +796,7 @@ def run(chk):
     evs = [e for p in parts for e in p]
     chk.validate("C10Trace", evs, shard=1500, label="hist", corrupt=_corrupt)
     memo_leg(chk)
+    pcache_leg(chk)
     chk.nontrivial = len({(e[1], tuple(e[2])) for e in evs})
     chk.extra["histories_emitted_by_tlc"] = total_emitted
     chk.extra["histories_replayed"] = len(evs)
